@@ -8,6 +8,7 @@ import CallbagModel.Inv.Flatten
 import CallbagModel.Inv.ForEach
 import CallbagModel.Inv.FromIter
 import CallbagModel.Inv.Fuse
+import CallbagModel.Inv.LateMember
 import CallbagModel.Inv.Merge
 import CallbagModel.Inv.MonSound
 import CallbagModel.Inv.PlugOpSafe
@@ -96,6 +97,14 @@ theorem C03_member_of_concat {S1 L1 β : Type} {M1 : Machine S1 L1 β β} (h1 : 
     ∀ s, SReach (plugOp j M1 (Concat.machine β n)) s → SafeFor 3 s :=
   fun s hs => safeFor_of_basicSafe _ s hs (PlugOpSafe.plugOp_concat_basicSafe h1 n hn j s hs) 3 (by decide)
 
+theorem C03_take_member_of_merge {α : Type} (max n j : Nat) :
+    ∀ s, SReach (plugOp j (Take.machine α max) (Merge.machine α n true)) s → SafeFor 3 s :=
+  fun s hs => safeFor_of_basicSafe _ s hs (LateMember.plugOp_take_merge_basicSafe max n j s hs) 3 (by decide)
+
+theorem C03_relay_member_of_merge {σ α : Type} (k : Relay.Kind σ α α) (hk : k.slotted = false → ∀ s a, (k.xfer s a).2 ≠ none) (n j : Nat) :
+    ∀ s, SReach (plugOp j (Relay.machine k) (Merge.machine α n true)) s → SafeFor 3 s :=
+  fun s hs => safeFor_of_basicSafe _ s hs (LateMember.plugOp_relay_merge_basicSafe k hk n j s hs) 3 (by decide)
+
 
 /-! ## What the monitor verdict means, in terms of the trace alone
 
@@ -173,6 +182,14 @@ theorem C03_flatten_network_readable {So Lo Si Li αo αi : Type} {Mo : Machine 
 theorem C03_member_of_concat_readable {S1 L1 β : Type} {M1 : Machine S1 L1 β β} (h1 : Pipeable M1) (n : Nat) (hn : 0 < n) (j : Nat) :
     ∀ s, SReach (plugOp j M1 (Concat.machine β n)) s → ∀ k, DisposalRespected k s.tr :=
   fun s hs k => (readable_of_noViols hs (PlugOpSafe.plugOp_concat_basicSafe h1 n hn j s hs).1 k).2.2
+
+theorem C03_take_member_of_merge_readable {α : Type} (max n j : Nat) :
+    ∀ s, SReach (plugOp j (Take.machine α max) (Merge.machine α n true)) s → ∀ k, DisposalRespected k s.tr :=
+  fun s hs k => (readable_of_noViols hs (LateMember.plugOp_take_merge_basicSafe max n j s hs).1 k).2.2
+
+theorem C03_relay_member_of_merge_readable {σ α : Type} (k : Relay.Kind σ α α) (hk : k.slotted = false → ∀ s a, (k.xfer s a).2 ≠ none) (n j : Nat) :
+    ∀ s, SReach (plugOp j (Relay.machine k) (Merge.machine α n true)) s → ∀ k, DisposalRespected k s.tr :=
+  fun s hs k => (readable_of_noViols hs (LateMember.plugOp_relay_merge_basicSafe k hk n j s hs).1 k).2.2
 
 /-- the oracle that judges traces recorded from the real crate IS the monitor of these theorems: on every model execution the
 machine-free monitor `monRun` (Mon.lean), folded over the boundary trace alone, computes exactly the ghost carried by the configuration
